@@ -69,9 +69,12 @@ R(e, ev) == RM(e, ev, FALSE)
 AbM(c, ev, may) == [ab |-> c, e |-> EAny, ev |-> ev, may |-> may]
 Ab(c, ev) == AbM(c, ev, FALSE)
 Det(e) == e.k = "val"
+RECURSIVE ValOf(_)
 ValOf(e) == IF e.k = "val" THEN e.v
-            ELSE IF e.k = "arr" /\ \A i \in 1..Len(e.a) : e.a[i].k = "val"
-                 THEN Arr([i \in 1..Len(e.a) |-> e.a[i].v])
+            ELSE IF e.k = "arr"
+                 THEN LET vs == [i \in 1..Len(e.a) |-> ValOf(e.a[i])]
+                      IN IF \E i \in 1..Len(vs) : IsUnspec(vs[i]) /\ e.a[i].k # "val" /\ e.a[i].k # "arr"
+                         THEN Unspec ELSE Arr(vs)
             ELSE Unspec
 OfVal(v) == IF IsUnspec(v) THEN EAny ELSE EVal(v)
 
